@@ -4,6 +4,7 @@ import (
 	"fmt"
 	"strings"
 	"sync"
+	"time"
 
 	erpc "github.com/henrylee2cn/erpc/v6"
 	"github.com/henrylee2cn/erpc/v6/codec"
@@ -123,6 +124,9 @@ func GenOp(r *simrt.Rand, idx int, seed uint64, proto string) *Op {
 	op.N = int64(r.Uint64()>>40) - 1000
 	op.MetaK = metaKeys[r.Intn(len(metaKeys))]
 	op.MetaV = GenString(r, 1+r.Intn(12), alphaSafe[:62])
+	if r.Chance(0.1) {
+		op.CtxTimeout = time.Duration(50+r.Intn(950)) * time.Millisecond
+	}
 	if r.Chance(0.12) {
 		op.MetaV = "" // a key with an empty value travels as a bare key in the query-string encoding of metadata
 	}
@@ -142,6 +146,10 @@ func GenOp(r *simrt.Rand, idx int, seed uint64, proto string) *Op {
 		op.Route, op.Codec = "plain", 's'
 	default:
 		op.Route, op.Codec = "bytes", []byte{'j', 'p', 's'}[r.Intn(3)]
+	}
+	if op.Route == "echo" && op.Kind != "push" && proto != "thrift-struct" && proto != "http" && r.Chance(0.1) {
+		// the caller asks for the reply in another codec than the one it sends with
+		op.AcceptCodec = []byte{'j', 'p', 't', 'f', 'x'}[r.Intn(5)]
 	}
 	if op.Kind == "push" {
 		if op.Route == "plain" || op.Route == "bytes" {
